@@ -149,7 +149,7 @@ func RunConc(id int, o ConcOptions) (*ConcTrace, error) {
 		return nil, err
 	}
 	defer srv.StopAndRemove()
-	stall := NewStall()
+	stall := NewStall(srv.Dir)
 	defer stall.Stop()
 	tag := fmt.Sprintf("c%d-%d-", os.Getpid()%1000, id)
 	var ticket atomic.Int64
@@ -274,6 +274,9 @@ func RunConc(id int, o ConcOptions) (*ConcTrace, error) {
 	}
 
 	var wg sync.WaitGroup
+	var closing atomic.Bool // the run is being ended by the driver: read errors of the receivers are expected
+	var connMu sync.Mutex
+	var rconns []*t38.Conn // the receivers' connections
 	var firstErr error
 	var errMu sync.Mutex
 	setErr := func(err error) {
@@ -314,7 +317,10 @@ func RunConc(id int, o ConcOptions) (*ConcTrace, error) {
 			close(ls.done)
 			return
 		}
-		c.Timeout = o.Patience
+		c.Timeout = 10 * time.Minute
+		connMu.Lock()
+		rconns = append(rconns, c)
+		connMu.Unlock()
 		ls.st = T()
 		v, err := c.Do("WITHIN", keys[ls.cfg.K-1], "FENCE", "DETECT", detect(ls.cfg.Kinds), "BOUNDS", "-10", "-10", "10", "10")
 		if err != nil || v.Kind != '+' {
@@ -330,7 +336,9 @@ func RunConc(id int, o ConcOptions) (*ConcTrace, error) {
 			for {
 				v, err := c.Recv()
 				if err != nil {
-					setErr(ErrSlow{fmt.Sprintf("live connection %d: %v", l+1, err)})
+					if !closing.Load() {
+						setErr(fmt.Errorf("live connection %d: %v", l+1, err))
+					}
 					return
 				}
 				if v.Kind != '$' {
@@ -397,7 +405,10 @@ func RunConc(id int, o ConcOptions) (*ConcTrace, error) {
 			return
 		}
 		defer c.Close()
-		c.Timeout = o.Patience
+		c.Timeout = 10 * time.Minute
+		connMu.Lock()
+		rconns = append(rconns, c)
+		connMu.Unlock()
 		acks := make(chan string, 16)
 		progDone := make(chan struct{})
 		go func() { // the program: one operation at a time, each waits for its acknowledgement
@@ -452,7 +463,9 @@ func RunConc(id int, o ConcOptions) (*ConcTrace, error) {
 		for {
 			v, err := c.Recv()
 			if err != nil {
-				setErr(ErrSlow{fmt.Sprintf("subscriber %d: %v", s+1, err)})
+				if !closing.Load() {
+					setErr(fmt.Errorf("subscriber %d: %v", s+1, err))
+				}
 				return
 			}
 			if v.Kind != '*' || len(v.Arr) < 3 {
@@ -678,23 +691,26 @@ func RunConc(id int, o ConcOptions) (*ConcTrace, error) {
 			}
 		}
 	}
-	// ---- wait for the ends
-	waitCh := func(ch chan struct{}, what string) error {
+	// ---- wait for the ends.  A receiver that does not get its end sentinel in time is cut off and recorded as it
+	// is (TLC then finds what is missing) - unless the machine stalled, in which case the run is not recorded
+	incomplete := 0
+	endBy := time.Now().Add(o.Patience)
+	waitCh := func(ch chan struct{}) bool {
 		select {
 		case <-ch:
-			return nil
-		case <-time.After(o.Patience):
-			return ErrSlow{what + " did not see its end sentinel"}
+			return true
+		case <-time.After(time.Until(endBy)):
+			return false
 		}
 	}
 	for s := range subs {
-		if err := waitCh(subs[s].done, fmt.Sprintf("subscriber %d", s+1)); err != nil {
-			return nil, err
+		if !waitCh(subs[s].done) {
+			incomplete++
 		}
 	}
 	for l := range lives {
-		if err := waitCh(lives[l].done, fmt.Sprintf("live connection %d", l+1)); err != nil {
-			return nil, err
+		if !waitCh(lives[l].done) {
+			incomplete++
 		}
 	}
 	hookEnd := func(h int) bool {
@@ -702,26 +718,41 @@ func RunConc(id int, o ConcOptions) (*ConcTrace, error) {
 		hs.mu.Lock()
 		defer hs.mu.Unlock()
 		last := hookCfg[h].Kinds[len(hookCfg[h].Kinds)-1]
+		endMu.Lock()
+		end := endWrite[hookCfg[h].K]
+		endMu.Unlock()
 		for _, a := range hs.items {
-			if a.ID == endWrite[hookCfg[h].K] && detectCode[a.Detect] == last {
+			if a.ID == end && detectCode[a.Detect] == last {
 				return true
 			}
 		}
 		return false
 	}
-	start := time.Now()
 	for h := range hooks {
 		for !hookEnd(h) {
-			if time.Since(start) > o.Patience {
-				return nil, ErrSlow{fmt.Sprintf("webhook %d did not see its end sentinel", h+1)}
+			if time.Now().After(endBy) {
+				incomplete++
+				break
 			}
 			time.Sleep(5 * time.Millisecond)
 		}
 	}
-	for !srv.S.VerifIdle() && time.Since(start) < o.Patience {
+	for !srv.S.VerifIdle() && time.Now().Before(endBy) {
 		time.Sleep(5 * time.Millisecond)
 	}
 	time.Sleep(20 * time.Millisecond)
+	closing.Store(true)
+	connMu.Lock()
+	for _, c := range rconns {
+		c.Close()
+	}
+	connMu.Unlock()
+	for s := range subs {
+		<-subs[s].done
+	}
+	for l := range lives {
+		<-lives[l].done
+	}
 	errMu.Lock()
 	e := firstErr
 	errMu.Unlock()
@@ -729,8 +760,9 @@ func RunConc(id int, o ConcOptions) (*ConcTrace, error) {
 		return nil, e
 	}
 	if stall.Max() > 1500*time.Millisecond || ambiguous.Load() > 0 {
-		return nil, ErrSlow{fmt.Sprintf("process stalled for %v / %d requests answered after their client had gone", stall.Max(), ambiguous.Load())}
+		return nil, ErrSlow{fmt.Sprintf("process / disk stalled for %v, %d requests answered after their client had gone", stall.Max(), ambiguous.Load())}
 	}
+	tr.Info["receivers_cut_off_without_end_sentinel"] = incomplete
 
 	// ---- the order of the SETs in the log
 	wOf := map[string]int{}
